@@ -8,7 +8,19 @@ use std::panic::{catch_unwind, AssertUnwindSafe};
 use std::sync::atomic::{AtomicBool, Ordering};
 use std::time::Instant;
 
-pub const VERIF: &str = "/verif";
+/// root of the verification tree: $VERIF_DIR, or the current directory if it holds a MANIFEST.json
+/// (the driver cds into it; a snapshot run then writes into the snapshot, not into /verif), else /verif
+pub fn verif_dir() -> String {
+    if let Ok(d) = std::env::var("VERIF_DIR") {
+        return d;
+    }
+    if std::path::Path::new("MANIFEST.json").exists() {
+        if let Ok(d) = std::env::current_dir() {
+            return d.to_string_lossy().to_string();
+        }
+    }
+    "/verif".to_string()
+}
 
 #[derive(Clone, Copy, PartialEq, Eq, Debug)]
 pub enum Tier {
@@ -216,7 +228,7 @@ pub struct KnownFinding {
 }
 
 pub fn load_known(prop: &str) -> Vec<KnownFinding> {
-    let p = format!("{}/known_findings.json", VERIF);
+    let p = format!("{}/known_findings.json", verif_dir());
     let Ok(s) = std::fs::read_to_string(&p) else { return vec![] };
     let v: J = serde_json::from_str(&s).unwrap_or_else(|e| {
         eprintln!("MACHINERY: cannot parse {}: {}", p, e);
@@ -313,10 +325,11 @@ impl Ctx {
                 println!("NOTE: open finding {} not met in this run ({})", k.id, k.what);
             }
         }
-        let _ = std::fs::create_dir_all(format!("{}/replays", VERIF));
+        let verif = verif_dir();
+        let _ = std::fs::create_dir_all(format!("{}/replays", verif));
         let mut vio_json = vec![];
         for (i, (sig, rec)) in violations.iter().enumerate() {
-            let path = format!("{}/replays/{}-{}-{}.json", VERIF, self.prop, self.tier.name(), i);
+            let path = format!("{}/replays/{}-{}-{}.json", verif, self.prop, self.tier.name(), i);
             let body = json!({"property": self.prop, "signature": sig, "detail": rec.detail, "count": rec.count, "case": rec.case});
             let _ = std::fs::write(&path, serde_json::to_string_pretty(&body).unwrap());
             println!("VIOLATION property={} replay={}", self.prop, path);
@@ -362,8 +375,8 @@ impl Ctx {
             "wall_s": (self.elapsed() * 100.0).round() / 100.0,
             "violations": violations.len(),
         });
-        let _ = std::fs::create_dir_all(format!("{}/evidence", VERIF));
-        let path = format!("{}/evidence/{}.json", VERIF, self.prop);
+        let _ = std::fs::create_dir_all(format!("{}/evidence", verif));
+        let path = format!("{}/evidence/{}.json", verif, self.prop);
         if let Err(e) = std::fs::write(&path, serde_json::to_string_pretty(&ev).unwrap()) {
             eprintln!("MACHINERY: cannot write {}: {}", path, e);
             return 2;
